@@ -35,7 +35,9 @@ from .. import coqio as c
 
 WORDS = ["spam", "eggs", "ham", "sauce", "cheese", "onion", "stock", "rice", "mix", "dough", "Red Onion", "veg",
          # words that merely BEGIN with a remainder word / preposition / unit word (legal naked names)
-         "rested dough", "restaurant mix", "Remainders", "often", "gnocchi", "canned beans", "leftovers", "passata"]
+         "rested dough", "restaurant mix", "Remainders", "often", "gnocchi", "canned beans", "leftovers", "passata",
+         # cased letters outside ASCII (names are matched ignoring case for ALL letters)
+         "crème pâtissière", "jalapeño salsa", "борщ", "μέλι"]
 STEPS = ["chop", "fry", "boil", "mix", "bake", "stir well", "drain", "grate"]
 REMAINDERS = ["remaining", "remainder", "rest", "left over", "Remaining", "REST", "left  over", "leftover"]
 FREE_UNITS = ["handful", "large handfuls", "big sprigs", "Dash"]
@@ -217,6 +219,10 @@ def spell_name(parts: List[Any], rng: random.Random, canonical: bool = False, da
     first = True
     prev_naked = False
     i = 0
+    if not canonical and rng.random() < 0.03:
+        # an EMPTY brace group in front (the '{}' variant of the documented ''{8} trick): contributes nothing to the name
+        out.append("{}")
+        first = False
     while i < len(parts):
         p = parts[i]
         if not isinstance(p, str):
